@@ -7,7 +7,7 @@
 (* rest of the trace is still examined.  The trace is accepted iff no      *)
 (* MISMATCH line was printed and every line was consumed (postcondition).  *)
 (***************************************************************************)
-EXTENDS UintText, Json, IOUtils, TLC
+EXTENDS UintFloat, Json, IOUtils, TLC
 
 Rec == ndJsonDeserialize(IOEnv.TRACE)
 
@@ -22,6 +22,7 @@ Check(e) ==
          [] e.g = "math"  -> CheckMath(e)
          [] e.g = "kern"  -> CheckKern(e)
          [] e.g = "text"  -> CheckText(e)
+         [] e.g = "float" -> CheckFloat(e)
          [] OTHER -> [unknown_group |-> FALSE]
 
 Fails(c) == {f \in DOMAIN c : ~c[f]}
